@@ -16,6 +16,7 @@ import (
 	"time"
 
 	"github.com/pilosa/pilosa/internal/vx"
+	"github.com/pilosa/pilosa/pql"
 )
 
 var c07Cols = []uint64{0, 1, 65535, 65536, ShardWidth - 1}
@@ -242,6 +243,27 @@ func (in *c07Inst) Apply(op vx.Op) (got, want string) {
 			in.vals[bt.cols[i]] = bt.vals[i]
 		}
 		return fmt.Sprint(err), fmt.Sprint(nil)
+	case "rSum":
+		// aggregate + range reads go through fragment.row() of the BSI rows (row cache)
+		s, n, err := f.sum(nil, in.depth)
+		var ws int64
+		for _, v := range in.vals {
+			ws += v
+		}
+		gt, err2 := f.rangeOp(pql.GT, in.depth, 0)
+		var wgt []uint64
+		for c, v := range in.vals {
+			if v > 0 {
+				wgt = append(wgt, c)
+			}
+		}
+		nn, err3 := f.notNull()
+		var wnn []uint64
+		for c := range in.vals {
+			wnn = append(wnn, c)
+		}
+		return fmt.Sprint(s, n, err, vx.SortedU64(gt.Columns()), err2, vx.SortedU64(nn.Columns()), err3),
+			fmt.Sprint(ws, len(in.vals), nil, vx.SortedU64(wgt), nil, vx.SortedU64(wnn), nil)
 	case "rValues":
 		var g, w strings.Builder
 		for _, c := range c07Cols {
@@ -294,7 +316,7 @@ func c07Alphabet(kind string, queue, thorough bool) []vx.Op {
 		for i := range c07ValBatches {
 			a = append(a, vx.O("importValue", int64(i)), vx.O("importValueClear", int64(i)))
 		}
-		a = append(a, vx.O("rValues"), vx.O("snapshot"), vx.O("reopen"))
+		a = append(a, vx.O("rValues"), vx.O("rSum"), vx.O("snapshot"), vx.O("reopen"))
 		return a
 	}
 	rows := c07Rows
@@ -415,7 +437,7 @@ func TestVerif_C07(t *testing.T) {
 			}
 			alpha = a2
 		}
-		h := &vx.Harness{Alphabet: alpha, New: func() vx.Instance { return c07New(cf.kind, cf.maxOpN, cf.queue) }, Key: c07Key(cf.name),
+		h := &vx.Harness{Alphabet: alpha, New: func() vx.Instance { return c07New(cf.kind, cf.maxOpN, cf.queue) }, Key: c07Key(cf.name), MultiProcess: true,
 			Benign: func(k string) bool { return k == c07KeySetRowChanged }}
 		t0 := time.Now()
 		c.WithBudget(float64(c.Pick(14, 200)), func() {
